@@ -31,6 +31,32 @@ fn main() {
             Err(e) => found.push(format!("divide returned Err({e}) for a={a:?} d={d:?}")),
         }
     }
+    // complex coefficients (bounded): reconstruction identity and degree of the remainder
+    {
+        use nalgebra::Complex; type C = Complex<f64>;
+        let cases: Vec<(Vec<C>, Vec<C>)> = vec![
+            (vec![C::new(1.0, 0.0), C::new(-1.0, 1.0), C::new(0.0, 0.0)], vec![C::new(1.0, 0.0), C::new(-1.0, 0.0)]),
+            (vec![C::new(0.0, 1.0), C::new(0.0, 0.0), C::new(0.0, 0.0), C::new(0.0, 0.0), C::new(0.0, -1.0)], vec![C::new(1.0, 0.0), C::new(0.0, 0.0), C::new(1.0, 0.0)]),
+            (vec![C::new(2.0, -1.0), C::new(0.0, 3.0), C::new(1.0, 1.0), C::new(-4.0, 0.5)], vec![C::new(0.0, 2.0), C::new(1.0, -1.0)]),
+        ];
+        for (a, d) in cases {
+            let ap: Polynomial<C> = Polynomial::from_slice(&a); let dp: Polynomial<C> = Polynomial::from_slice(&d);
+            match ap.divide(&dp) {
+                Ok((q, r)) => {
+                    if r.order() >= dp.order() && dp.order() > 0 { found.push(format!("complex: deg r = {} >= deg d = {} for a={a:?} d={d:?}", r.order(), dp.order())); }
+                    // q*d + r by direct convolution (the crate's complex FFT product is a separate, known problem: C11 not decided)
+                    let n = ap.order().max(q.order() + dp.order());
+                    for k in 0..=n {
+                        let mut v = if k <= r.order() { r.get_coefficient(k) } else { C::new(0.0, 0.0) };
+                        for i in 0..=k.min(q.order()) { if k - i <= dp.order() { v += q.get_coefficient(i) * dp.get_coefficient(k - i); } }
+                        let want = if k <= ap.order() { ap.get_coefficient(k) } else { C::new(0.0, 0.0) };
+                        if (v - want).norm() > 1e-9 { found.push(format!("complex: q*d+r differs from the dividend at x^{k} by {:e}: a={a:?} d={d:?}", (v - want).norm())); break; }
+                    }
+                }
+                Err(e) => found.push(format!("complex: divide returned Err({e}) for a={a:?} d={d:?}")),
+            }
+        }
+    }
     let z: Polynomial<f64> = Polynomial::from_slice(&[0.0]);
     let one: Polynomial<f64> = Polynomial::from_slice(&[1.0, 2.0]);
     if one.divide(&z).is_ok() { found.push("division by the zero polynomial returned Ok".into()); }
